@@ -285,12 +285,17 @@ func main() {
 	replay := fs.String("replay", "", "replay file (json case)")
 	known := fs.String("known", "", "comma separated tags of known findings whose input classes are generated too")
 	corpus := fs.String("corpus", "", "directory of replay files run before the generated cases")
+	wcorp := fs.String("writecorpus", "", "write the deterministic encodeType-flag cases as replay files into this directory and exit")
 	fs.Parse(os.Args[2:])
 	if os.Args[1] != "roundtrip" && os.Args[1] != "negotiated" {
 		fmt.Fprintln(os.Stderr, "unknown subcommand")
 		os.Exit(2)
 	}
 	registerAll()
+	if *wcorp != "" {
+		writeFlagCorpus(*wcorp)
+		return
+	}
 	if os.Args[1] == "negotiated" {
 		mainNegotiated(*n, *outp, *replay)
 		return
